@@ -13,7 +13,7 @@ CLAIMED = {
   "DESIGN.md §4 C04"),
  "C05": ("other",
   "decision-table flattening of advanceDFA/evalDFA + Moore-machine equivalence against a reference built from the documented token table; AST/SSA rules for lexeme, consume-once, scan loop and token loop; invariant and bookkeeping rules on the in-memory reader",
-  "Complete decision of the transition/acceptance clause: every (state, code point interval) pair over all of Unicode and every accepting state is compared by product exploration with a reference machine the checker builds from docs/5-definitions.md plus the property's layout/comment clauses; lexeme operation, single consumption, position source, the retract/evaluate protocol of the scan function and the token loop around it (call again exactly when the lexeme was layout) are decided structurally; the reader is module code since the lexer scans in memory, and its cursor invariant, end-of-input test, lexeme slice and the offset/line/column walk over the runes of the lexeme are decided too (R5.5). Claimed as 'other' rather than 'proof' because one obligation is a recorded genuine finding (single-letter TOKEN), so not every obligation is discharged.",
+  "Complete decision of the transition/acceptance clause: every (state, code point interval) pair over all of Unicode and every accepting state is compared by product exploration with a reference machine the checker builds from docs/5-definitions.md plus the property's layout/comment clauses; lexeme operation, single consumption, position source, the retract/evaluate protocol of the scan function and the token loop around it (call again exactly when the lexeme was layout) are decided structurally; the reader is module code since the lexer scans in memory, and its cursor invariant, end-of-input test, lexeme slice and the offset/line/column walk over the runes of the lexeme, the recognition of an invalid encoding by (RuneError, size 1) rather than by U+FFFD itself, and the position of that error at the forward cursor are decided too (R5.5). Claimed as 'other' rather than 'proof' because one obligation is a recorded genuine finding (single-letter TOKEN), so not every obligation is discharged.",
   "Trusted: checker's regex->DFA engine; utf8.DecodeRune/DecodeLastRune contracts; docs token table. REGEX is taken to exclude forms that start a comment (docs/6-design.md).",
   "DESIGN.md §4 C05"),
 }
